@@ -1634,10 +1634,11 @@ where
         if packet.qos() == Qos::AtLeastOnce || packet.qos() == Qos::ExactlyOnce {
             // Register packet ID for QoS 1 or 2
             let packet_id = packet.packet_id().unwrap();
-            if self.status != ConnectionStatus::Connected
-                && !self.need_store
-                && !self.offline_publish
-            {
+            // A QoS>0 PUBLISH that can be neither sent now nor stored for later must be refused,
+            // not silently dropped
+            let storable = self.need_store
+                && (self.status != ConnectionStatus::Disconnected || self.offline_publish);
+            if self.status != ConnectionStatus::Connected && !storable {
                 events.push(GenericEvent::NotifyError(MqttError::PacketNotAllowedToSend));
                 if self.pid_man.is_used_id(packet_id) {
                     self.pid_man.release_id(packet_id);
@@ -1694,10 +1695,11 @@ where
         let mut topic_alias_validated = false;
         if packet.qos() == Qos::AtLeastOnce || packet.qos() == Qos::ExactlyOnce {
             let packet_id = packet.packet_id().unwrap();
-            if self.status != ConnectionStatus::Connected
-                && !self.need_store
-                && !self.offline_publish
-            {
+            // A QoS>0 PUBLISH that can be neither sent now nor stored for later must be refused,
+            // not silently dropped
+            let storable = self.need_store
+                && (self.status != ConnectionStatus::Disconnected || self.offline_publish);
+            if self.status != ConnectionStatus::Connected && !storable {
                 events.push(GenericEvent::NotifyError(MqttError::PacketNotAllowedToSend));
                 if self.pid_man.is_used_id(packet_id) {
                     self.pid_man.release_id(packet_id);
